@@ -27,7 +27,7 @@ func init() {
 	core.Register(&core.Check{
 		ID: "C20", Level: "exploration", Race: true,
 		Technique: "runtime monitor on hooked callbacks: every ResolveParams / ResolveTypeParams / IsTypeOfParams recorded by instrumented schema callbacks is compared with the invocation the reference executor predicts; plan-reuse histories (sequential and from 4 goroutines under the race detector) with per-request roots, variables and context tokens; resolvers scribble on the args map they receive",
-		Rule:      "case = (schema, valid document, operation, history of k executions of ONE prepared plan with different variables / roots / context tokens); non-trivial: >= 2 resolver invocations and at least one of {list element source, abstract parent type, merged occurrences, arguments, reuse k >= 2}; distinct by hash(schema, document, operation, history)",
+		Rule:      "plus fields without a resolve function over sources of every documented shape (maps, reflected maps, structs by name / json / graphql tag, pointers, FieldResolver implementers, function-valued properties, typed-nil elements) compared with a model of \"the property named like the field\"; case = (schema, valid document, operation, history of k executions of ONE prepared plan with different variables / roots / context tokens); non-trivial: >= 2 resolver invocations and at least one of {list element source, abstract parent type, merged occurrences, arguments, reuse k >= 2}; distinct by hash(schema, document, operation, history)",
 		Assumptions: []string{
 			"reference executor (internal/ref/exec) predicts paths, parent types, args and sources correctly (calibrated in C01)",
 			"FieldASTs are identified by their source offsets",
@@ -229,6 +229,7 @@ func filterByToken(evs []build.Event, tok string) []build.Event {
 }
 
 func run(c *core.Child) {
+	defaultResolverCases(c)
 	nSchemas := c.Scale(5, 24)
 	nDocs := c.Scale(40, 120)
 	for si := 0; si < nSchemas; si++ {
